@@ -483,6 +483,79 @@ def max_size(ctx):
     ok = out.get("body") == b"x" * total
     return ok, "fits", (None if ok else {"key": "body-within-client-max-size-refused-or-altered"})
 
+def multipart_max_size(ctx):
+    """server side: a compressed multipart part read with decode=True never yields more than
+    client_max_size bytes - the limit counts what has been decoded so far, whatever the block size of
+    the decompressor (real zlib on a concrete, highly compressible part)"""
+    import gzip
+    import zlib
+
+    from aiohttp import web
+    from aiohttp.streams import StreamReader
+    from aiohttp.test_utils import make_mocked_request
+
+    loop = install(VLoop())
+    enc = ctx.pick("part_encoding", ["gzip", "deflate"])
+    size = ctx.pick("decoded_size", [100, 300 * 1024, 600 * 1024, 3 * 1024 * 1024])
+    cms = ctx.pick("client_max_size", [200, 512 * 1024, 1024 * 1024])
+    api = ctx.pick("api", ["read", "text"])
+    plain = b"a" * size
+    if enc == "gzip":
+        comp = gzip.compress(plain, mtime=0)
+    else:
+        # (aiohttp's multipart writer and reader use raw deflate for a part's 'deflate' coding)
+        c = zlib.compressobj(wbits=-15)
+        comp = c.compress(plain) + c.flush()
+    body = (b"--b\r\nContent-Type: text/plain\r\nContent-Encoding: " + enc.encode() + b"\r\n\r\n" + comp + b"\r\n--b--\r\n")
+
+    class P:
+        _reading_paused = False
+        connected = True
+
+        def pause_reading(self):
+            pass
+
+        def resume_reading(self, resume_parser=True):
+            pass
+
+    payload = StreamReader(P(), 2 ** 22, loop=loop)
+    payload.feed_data(body)
+    payload.feed_eof()
+    req = make_mocked_request("POST", "/", headers={"Content-Type": "multipart/mixed; boundary=b"}, payload=payload,
+                              client_max_size=cms)
+    out = {}
+
+    async def go():
+        try:
+            reader = await req.multipart()
+            part = await reader.next()
+            out["data"] = (await part.read(decode=True)) if api == "read" else (await part.text()).encode()
+        except web.HTTPRequestEntityTooLarge:
+            out["err"] = 413
+        except Exception as e:  # noqa: BLE001
+            out["exc"] = type(e).__name__
+
+    t = asyncio.Task(go(), loop=loop)
+    loop.run_ready()
+    info = {"part_encoding": enc, "decoded_size": size, "client_max_size": cms, "api": api}
+    if not t.done():
+        t.cancel()
+        loop.run_ready()
+        info["key"] = "multipart-part-read-never-returns"
+        return False, "inv:mp", info
+    if "exc" in out:
+        info["key"] = "multipart-part-read-raises:" + out["exc"]
+        return False, "inv:mp", info
+    if size > cms:
+        if out.get("err") != 413:
+            info.update(key="decoded-part-above-client-max-size-returned", returned=len(out.get("data", b"")))
+            return False, "inv:mp", info
+        return True, "mp:too-large", None
+    if out.get("data") != plain:
+        info.update(key="decoded-part-within-client-max-size-refused-or-altered", err=out.get("err"))
+        return False, "inv:mp", info
+    return True, "mp:fits", None
+
 
 def twin(ctx):
     r = body_flow(ctx, "chunked", False)
@@ -515,6 +588,7 @@ def jobs(tier):
         out.append(dict(name=f"codec-{kind}", func="real_codec", params=dict(kind=kind), limits=lim))
     out.append(dict(name="codec-gzip-corrupt", func="real_codec", params=dict(kind="gzip", corrupt=True), limits=lim))
     out.append(dict(name="client-max-size", func="max_size", params={}, limits=lim))
+    out.append(dict(name="multipart-max-size", func="multipart_max_size", params={}, limits=lim))
     return out
 
 
